@@ -78,7 +78,7 @@ theorem built_wf (recs : List Rec) (h : SortedInput recs) (hlen : recs.length < 
       have := hoff a ha
       unfold OffOK; omega
     refine { nb := ?_, bins := ?_, stats := ?_, ivlen := ?_, ivs := ?_ }
-    · have := ri.binsLen; omega
+    · have := ri.binsLen; split <;> omega
     · intro bn hbn
       obtain ⟨a, ha, hab⟩ := ri.binRec bn hbn
       have hb := hbin a (hrec a ha).1 (hrec a ha).2
